@@ -202,7 +202,9 @@ def gen_system(rng, am, fam_box=None, extra=(), far=False):
     tag = rng.sample(range(1, 50), n)
     atoms = am.Atoms(atype=atype, pos=np.array([[float(x) for x in sp] for sp in spos], dtype=float), q=np.array(q),
                      v=np.array(v), stress=np.array(stress), tag=np.array(tag, dtype=int))
-    sysm = am.System(atoms=atoms, box=box, scale=True)
+    # half of the systems name their types: an atom type is its number together with what the number stands for
+    syms = rng.sample(['Al', 'Ni', 'Cu', 'Fe', 'O'], len(set(atype))) if rng.random() < 0.5 else None
+    sysm = am.System(atoms=atoms, box=box, scale=True, symbols=syms)
     return sysm, fam, spos
 
 
@@ -700,6 +702,10 @@ def _check_same_crystal(ctx, key, what, sysm, spos, new, T, count, replay):
     if not (vol1 > 0) or abs(vol1 - count * vol0) > 1e-8 * abs(vol1):
         ctx.violate(key + ':volume', f'{what}: volume {vol1}, expected {count} x {vol0}', replay)
         return False
+    if tuple(new.symbols) != tuple(sysm.symbols):
+        ctx.violate(key + ':symbols', f'{what}: atom types stand for {tuple(new.symbols)}, originally {tuple(sysm.symbols)}',
+                    replay)
+        return False
     if sorted(new.atoms_prop()) != sorted(sysm.atoms_prop()):
         ctx.violate(key + ':properties', f'{what}: per-atom properties {sorted(new.atoms_prop())}, original has '
                     f'{sorted(sysm.atoms_prop())}', replay)
@@ -962,6 +968,7 @@ def gen_conv_case(rng, am, setting, mode='random'):
         stored = [tuple(t[k] + shift[k] for k in range(3)) for t in stored]
     return {'setting': setting, 'family': fam, 'mode': mode, 'vects': box.vects.tolist(), 'origin': box.origin.tolist(),
             'shift': [[x.numerator, x.denominator] for x in shift],
+            'symbols': rng.sample(['Al', 'Ni', 'Cu', 'Fe', 'O'], len(set(mtype))) if rng.random() < 0.5 else None,
             'stored': [[float(x) for x in t] for t in stored], 'atype': [mtype[j] for j in midx],
             'q': [mq[j] for j in midx], 'tag': [mtag[j] for j in midx]}
 
@@ -970,7 +977,8 @@ def build_conv(am, case):
     np = _np()
     atoms = am.Atoms(atype=case['atype'], pos=np.array(case['stored'], dtype=float), q=np.array(case['q'], dtype=float),
                      tag=np.array(case['tag'], dtype=int))
-    return am.System(atoms=atoms, box=am.Box(vects=case['vects'], origin=case['origin']), scale=True)
+    return am.System(atoms=atoms, box=am.Box(vects=case['vects'], origin=case['origin']), scale=True,
+                     symbols=case.get('symbols'))
 
 
 def conv_exact_spos(case):
@@ -1140,6 +1148,9 @@ def _check_same_crystal_partial(ctx, key, what, sysm, spos, new, T, replay):
     recs = _orig_records(sysm, spos)
     Vinv = np.linalg.inv(sysm.box.vects)
     tol = _tol_rel(np, sysm.box.vects, new.atoms.pos, sysm.box.origin, new.box.vects) if new.natoms else 1e-9
+    if tuple(new.symbols) != tuple(sysm.symbols):
+        ctx.violate(key, f'{what}: atom types stand for {tuple(new.symbols)}, originally {tuple(sysm.symbols)}', replay)
+        return False
     for k in range(new.natoms):
         y = T.T @ new.atoms.pos[k]
         s = (y - sysm.box.origin) @ Vinv
